@@ -30,7 +30,7 @@ BUDGET = {
 
 @st.composite
 def cases(draw):
-    spec = draw(models.model_specs(names=draw(st.sampled_from(["free", "free", "ident"])), n_state=(1, 5), n_control=(0, 3), n_calib=(0, 2), depth=3,
+    spec = draw(models.model_specs(calib_types=models.CALIB_TYPES, names=draw(st.sampled_from(["free", "free", "ident"])), n_state=(1, 5), n_control=(0, 3), n_calib=(0, 2), depth=3,
                                    allow_string_form=True, allow_alt_dt=True, allow_wrap=True))
     pts = draw(models.point_sequences(spec, 6, dt=("pos", "neg"), extra_zero_dt=True))
     if len(spec["state"]) >= 2 and draw(st.integers(0, 5)) == 0:
